@@ -72,11 +72,11 @@ class Agg:
         self.fns = []
         self.npaths = 0
 
-    def exec(self, fn_re, models, log=(), unroll=2, init_env=None, max_paths=4000, first_arg_re="", prep=None):
+    def exec(self, fn_re, models, log=(), unroll=2, init_env=None, max_paths=4000, first_arg_re="", prep=None, deepen=True):
         text = find_fn(self.mir, fn_re, first_arg_re)
         m = dict(mirexec.COMMON_MODELS)
         m.update(models)
-        if self.tier == "thorough":
+        if self.tier == "thorough" and deepen:
             # deeper bound: one more loop iteration per path (collections of up to unroll+1 elements), more paths allowed
             unroll, max_paths = unroll + 1, max_paths * 20
         ex = mirexec.Exec(text, self.enums, mirsmt.consts_of(self.mir), m, set(log), unroll=unroll, mir=self.mir,
@@ -778,11 +778,11 @@ SITES = {
 
 
 def run(prop, mir, src, ob, tier="quick"):
-    import mirblocks, mirflow, mirpaths, mirload, mirquery, mirorder
+    import mirblocks, mirflow, mirpaths, mirload, mirquery, mirorder, mirparse
     a = Agg(mir, src, ob, tier)
     for s in SITES.get(prop, []):
         getattr(a, s)()
-    for f in mirblocks.SITES.get(prop, []) + mirflow.SITES.get(prop, []) + mirpaths.SITES.get(prop, []) + mirload.SITES.get(prop, []) + mirquery.SITES.get(prop, []) + mirorder.SITES.get(prop, []):
+    for f in mirblocks.SITES.get(prop, []) + mirflow.SITES.get(prop, []) + mirpaths.SITES.get(prop, []) + mirload.SITES.get(prop, []) + mirquery.SITES.get(prop, []) + mirorder.SITES.get(prop, []) + mirparse.SITES.get(prop, []):
         try:
             f(a)
         except Untranslatable as e:
@@ -793,6 +793,6 @@ def run(prop, mir, src, ob, tier="quick"):
 
 
 def has_sites(prop):
-    import mirblocks, mirflow, mirpaths, mirload, mirquery, mirorder
-    return (prop in SITES or prop in mirblocks.SITES or prop in mirflow.SITES or prop in mirpaths.SITES or prop in mirload.SITES
+    import mirblocks, mirflow, mirpaths, mirload, mirquery, mirorder, mirparse
+    return (prop in mirparse.SITES or prop in SITES or prop in mirblocks.SITES or prop in mirflow.SITES or prop in mirpaths.SITES or prop in mirload.SITES
             or prop in mirquery.SITES or prop in mirorder.SITES)
